@@ -266,6 +266,8 @@ def run(ctx):
     check_counted_fill(ctx)
     ctx.rule("R10", "the text of a LoadError is `message (file:line)` (composition evaluated)", "errors that carry the file object print without the file name or the line number")
     check_message_composition(ctx, "R10")
+    check_no_swallowing_constructs(ctx, "R1")
+    check_lineiterator_lifo(ctx, "R6")
 
 
 def _outcomes(stmts):
@@ -730,3 +732,69 @@ def check_validator_schema(ctx, rid):
         for name in sorted(set(decl) - set(fields)):
             ctx.violate(rid, f"{ci.name}.{name} has a shape validator that spec/validators.json does not list (new field: add its documented shape)", relpath=ci.module.relpath, function=ci.qualname, node=decl[name][1], construct=f"{ci.name}.{name}: unlisted validator")
     ctx.floor(rid, n, 20, "validated array fields")
+
+
+def check_no_swallowing_constructs(ctx, rid):
+    """No `return` / `break` / `continue` inside a `finally` block and no `contextlib.suppress` anywhere in the package:
+    both discard an exception in flight without any handler saying so (an API decorator written
+    `try: ... finally: return result` turns every LoadError into a normal return of None)."""
+    prog = ctx.prog
+    n = 0
+    for f in prog.package_funcs():
+        for t in [x for x in f.own_nodes() if isinstance(x, ast.Try) and x.finalbody]:
+            n += 1
+            for st in t.finalbody:
+                for x in ast.walk(st):
+                    if isinstance(x, ast.Return) or (isinstance(x, (ast.Break, ast.Continue)) and not any(isinstance(p_, (ast.For, ast.While)) and any(y is x for y in ast.walk(p_)) for p_ in ast.walk(st) if p_ is not x)):
+                        ctx.violate(rid, f"{f.name}: `{type(x).__name__.lower()}` inside a `finally` block discards any exception in flight: a failure turns into a normal result", f, x)
+        for cs in f.calls:
+            if cs.external in ("contextlib.suppress",):
+                ctx.violate(rid, f"{f.name} uses contextlib.suppress: exceptions are dropped silently", f, cs.node)
+    ctx.ok(rid, f"no return / break / continue in any of the {n} `finally` blocks of the package; no contextlib.suppress", "iodata")
+
+
+def check_lineiterator_lifo(ctx, rid):
+    """LineIterator evaluated: lines put back come out again last-in-first-out before anything new is read, and the
+    line counter goes down and up with them."""
+    from ..accessors import AccessorEval, Raised, Rec
+    from ..symarr import NotSymbolic
+
+    prog = ctx.prog
+    licls = prog.cls("iodata.utils.LineIterator")
+    lit = Rec(licls, filename="F", fh=iter(["1\n", "2\n", "3\n"]), lineno=0, stack=[])
+    ev = AccessorEval(prog, licls, limit=2000)
+    try:
+        a = ev.call_method(lit, "__next__", [], {})
+        b = ev.call_method(lit, "__next__", [], {})
+        n2 = lit.fields["lineno"]
+        ev.call_method(lit, "back", [b], {})
+        ev.call_method(lit, "back", [a], {})
+        n0 = lit.fields["lineno"]
+        seq = [ev.call_method(lit, "__next__", [], {}) for _ in range(3)]
+        n3 = lit.fields["lineno"]
+        try:
+            ev.call_method(lit, "__next__", [], {})
+            end = "returns"
+        except Raised as exc:
+            end = exc.args[0]
+    except Raised as exc:
+        ctx.violate(rid, f"LineIterator raises {exc.args[0]} in a next / back sequence on three lines", relpath=licls.module.relpath, function=licls.qualname, node=licls.node, construct="LineIterator sequence raises")
+        return
+    except NotSymbolic as exc:
+        raise AnalysisError(f"LineIterator is outside the evaluation whitelist: {exc}") from exc
+    bad = None
+    if (a, b) != ("1\n", "2\n") or n2 != 2:
+        bad = f"two reads give {(a, b)!r} with line counter {n2}"
+    elif n0 != 0:
+        bad = f"after putting both lines back the line counter is {n0}, expected 0"
+    elif seq != ["1\n", "2\n", "3\n"]:
+        bad = f"after back(second), back(first) the lines come out as {seq!r}: pushed-back lines must come first, in their original order"
+    elif n3 != 3:
+        bad = f"after re-reading three lines the line counter is {n3}"
+    elif end != "StopIteration":
+        bad = f"at the end of the input __next__ {end} instead of raising StopIteration"
+    g = licls.methods.get("__next__")
+    if bad:
+        ctx.violate(rid, f"LineIterator: {bad}", g, g.node, construct=f"LineIterator LIFO: {bad}"[:150])
+    else:
+        ctx.ok(rid, "LineIterator evaluated on three lines: push-backs come out last-in-first-out before new lines; the line counter follows", g.where)
